@@ -20,11 +20,12 @@ const (
 	WErrSticky        // (0, err) at call k and every later call
 	WShortErr         // (m < len, io.ErrShortWrite) at call k
 	WShortNil         // (m < len, nil) at call k: a short count without an error
+	WShortOneNil      // (len-1, nil) at call k: short by exactly one byte, no error
 	nWFault
 )
 
 func (k WFault) String() string {
-	return [...]string{"none", "err-once", "err-sticky", "short+ErrShortWrite", "short+nil"}[k]
+	return [...]string{"none", "err-once", "err-sticky", "short+ErrShortWrite", "short+nil", "short-by-one+nil"}[k]
 }
 
 var errInjected = errors.New("injected writer failure")
@@ -54,11 +55,14 @@ func (w *FaultyWriter) Write(p []byte) (int, error) {
 			w.Fired++
 			w.FiredAt = append(w.FiredAt, w.Calls)
 			return 0, errInjected
-		case WShortErr, WShortNil:
+		case WShortErr, WShortNil, WShortOneNil:
 			if len(p) == 0 {
 				break // a zero-length write cannot be short; nothing fires
 			}
 			m := len(p) / 2
+			if w.Kind == WShortOneNil {
+				m = len(p) - 1
+			}
 			w.Sink.Write(p[:m])
 			w.Fired++
 			w.FiredAt = append(w.FiredAt, w.Calls)
